@@ -12,7 +12,9 @@ ASSUMPTIONS = [
 def run(ctx):
     ctx.rule = ("(a) pytask's optree wrappers + PyTreeSpec.is_prefix/flatten_up_to on all trees of height ≤2 / width ≤3 (plus random height 3), all "
                 "(annotation, return) pairs of height ≤1 and derived fitting / non-fitting returns; (b) generated task modules mixing every "
-                "declaration form, built through pytask.build, bodies log the canonical kwargs and return values of chosen shape; "
+                "declaration form (incl. task generators, one kwargs dict / container object shared by several declarations), built through "
+                "pytask.build, bodies log the canonical kwargs and return values of chosen shape; (c) 2-3 builds inside one process with "
+                "pickled inputs rewritten in between (by the harness or by a task through a Path product); "
                 "non-trivial = the tree has a container and ≥2 leaves (a: the tree / both trees of a pair have a container); "
                 "distinct by canonical input")
     tree_api.campaign(ctx)
@@ -26,8 +28,11 @@ def replay(ctx, obj):
         case = inp["case"]
         obs = tree_api.run_worker([case], nproc=1)
         tree_api.check_cases(ctx, [case], obs)
+    elif inp.get("layer") == "seq":
+        res = args_api.run_sequences([inp["seq"]], nproc=1)
+        args_api.check_sequences(ctx, [inp["seq"]], res)
     else:
-        projs = [[inp["spec"]]]
+        projs = [inp["project"]] if inp.get("project") else [[inp["spec"]]]
         res = args_api.run_projects(projs, nservers=1)
         args_api.check_projects(ctx, projs, res)
     fresh = [v for v in ctx.violations if not v["finding"]]
